@@ -204,6 +204,20 @@ func runPkg(c pkgCase) (f *vh.Failure) {
 		if f := checkWritten([]rc.P{target}, out.B, "built"); f != nil {
 			return f
 		}
+		// the same package object written a second time (a request that is repeated) after it
+		// has been printed (what Info.DebugLogPackages does): the same fields again. The
+		// capability package writes its mask types in map order: compared by decoding.
+		_ = fmt.Sprintf("%s", built)
+		again := flatch.New(nil)
+		if err := built.WriteTo(again); err != nil {
+			return vh.Failf(class(kind, "write-again"), "second WriteTo of the same %s failed: %v", kind, err)
+		}
+		if target.Cap == nil && !bytes.Equal(again.B, out.B) {
+			return vh.Failf(class(kind, "write-again"), "the same %s written twice gives different bytes: % x then % x", kind, head(out.B), head(again.B))
+		}
+		if f := checkWritten([]rc.P{target}, again.B, "built, written a second time"); f != nil {
+			return f
+		}
 		vh.Label("built:" + kind)
 	}
 	vh.Label("kind:" + kind)
